@@ -1091,4 +1091,178 @@ theorem add_server_baseurl_run {banned : List Kind} {c : Cat} {d b : BDir} (hk :
     simp [this]
   simp only [flatA, flatAF, run, step, addDirective, hk, hkb, List.map_nil, List.map_cons, List.append_nil, BTree.dir]
   simp [addServer, addBaseUrl, hban, hbanb, hn, hany, hp, hab, List.find?_append, hfind, hmap]
+/-! ### the handlers that neither read nor write the tags -/
+
+def setTags (ts : List TagM) (c : Cat) : Cat := { c with tags := ts }
+
+/-- `F` neither reads nor writes the tags -/
+def Obliv (F : Cat → R Cat) : Prop := ∀ ts c, F (setTags ts c) = (F c).map (setTags ts)
+
+theorem bind_obliv {α} {g : Cat → Cat} (x : R α) (f f' : α → R Cat) (h : ∀ a, f a = (f' a).map g) :
+    (x >>= f) = (x >>= f').map g := by
+  cases x with
+  | error e => rfl
+  | ok a => exact h a
+
+macro "osplit" : tactic =>
+  `(tactic| repeat' (first | rfl | contradiction | (split <;> try simp only [*, ↓reduceIte])))
+
+/-- split the first condition; the failing branch is the same on both sides -/
+macro "ofail" : tactic =>
+  `(tactic| ((split <;> try simp only [*, ↓reduceIte]) <;> first | rfl | contradiction | skip))
+
+theorem addInfo_obliv (d : BDir) : Obliv (addInfo d) := by
+  intro ts c
+  unfold addInfo
+  simp only [fail, setTags]
+  osplit
+
+theorem addTitle_obliv (d : BDir) : Obliv (addTitle d) := by
+  intro ts c
+  unfold addTitle
+  simp only [fail, setTags]
+  osplit
+
+theorem addQuery_obliv (d : BDir) (anc) : Obliv (addQuery d anc) := by
+  intro ts c
+  unfold addQuery
+  simp only [fail, setTags]
+  ofail
+  ofail
+  refine bind_obliv _ _ _ (fun i => ?_)
+  simp only [Cat.getInter, Cat.updInter]
+  osplit
+
+theorem addJSight_obliv (d : BDir) : Obliv (addJSight d) := by
+  intro ts c
+  unfold addJSight
+  simp only [fail, setTags]
+  osplit
+
+theorem addVersion_obliv (d : BDir) : Obliv (addVersion d) := by
+  intro ts c
+  unfold addVersion
+  simp only [fail, setTags]
+  osplit
+
+theorem addServer_obliv (d : BDir) : Obliv (addServer d) := by
+  intro ts c
+  unfold addServer
+  simp only [fail, setTags]
+  osplit
+
+theorem addBaseUrl_obliv (d : BDir) (anc) : Obliv (addBaseUrl d anc) := by
+  intro ts c
+  unfold addBaseUrl
+  simp only [fail, setTags]
+  osplit
+
+theorem addType_obliv (d : BDir) : Obliv (addType d) := by
+  intro ts c
+  unfold addType
+  simp only [fail, setTags]
+  ofail
+  ofail
+  refine bind_obliv _ _ _ (fun i => ?_)
+  osplit
+
+theorem addURL_obliv (d : BDir) (kids anc) : Obliv (addURL d kids anc) := by
+  intro ts c
+  unfold addURL
+  simp only [fail, setTags]
+  ofail
+  refine bind_obliv _ _ _ (fun i => ?_)
+  refine bind_obliv _ _ _ (fun i => ?_)
+  osplit
+
+theorem addProtocol_obliv (d : BDir) (anc) : Obliv (addProtocol d anc) := by
+  intro ts c
+  unfold addProtocol
+  simp only [fail, setTags]
+  osplit
+
+theorem addRpcSchema_obliv (p : Bool) (d : BDir) (anc) : Obliv (addRpcSchema p d anc) := by
+  intro ts c
+  unfold addRpcSchema
+  simp only [fail, setTags]
+  ofail
+  ofail
+  refine bind_obliv _ _ _ (fun i => ?_)
+  simp only [Cat.getInter, Cat.updInter]
+  osplit
+
+theorem addRequestBody_obliv (d : BDir) (anc) (b) : Obliv (addRequestBody d anc b) := by
+  intro ts c
+  unfold addRequestBody
+  simp only [fail, setTags]
+  refine bind_obliv _ _ _ (fun i => ?_)
+  simp only [Cat.getInter, Cat.updInter]
+  osplit
+
+theorem addResponseBody_obliv (d : BDir) (anc) (b) : Obliv (addResponseBody d anc b) := by
+  intro ts c
+  unfold addResponseBody
+  simp only [fail, setTags]
+  refine bind_obliv _ _ _ (fun i => ?_)
+  simp only [Cat.getInter, Cat.updInter]
+  osplit
+
+theorem addHeaders_obliv (d : BDir) (anc) : Obliv (addHeaders d anc) := by
+  intro ts c
+  unfold addHeaders
+  simp only [fail, setTags]
+  ofail
+  ofail
+  ofail
+  split
+  · refine bind_obliv _ _ _ (fun i => ?_)
+    simp only [Cat.getInter, Cat.updInter]
+    osplit
+  split
+  · refine bind_obliv _ _ _ (fun i => ?_)
+    simp only [Cat.getInter, Cat.updInter]
+    osplit
+  rfl
+
+theorem obliv_upd {F : Cat → R Cat} (h : Obliv F) (ts : List TagM) (c : Cat) (i : IId) (g : InterM → InterM) :
+    F ((setTags ts c).updInter i g) = (F (c.updInter i g)).map (setTags ts) := h ts (c.updInter i g)
+
+theorem addRequest_obliv (d : BDir) (anc) : Obliv (addRequest d anc) := by
+  intro ts c
+  unfold addRequest
+  simp only [fail]
+  ofail
+  ofail
+  refine bind_obliv _ _ _ (fun nt => ?_)
+  split
+  · refine bind_obliv _ _ _ (fun i => ?_)
+    simp only [pure_bind]
+    repeat' (first | rfl | exact obliv_upd (addRequestBody_obliv d anc _) ts c i _ | split)
+  · simp only [pure_bind]
+    repeat' (first | rfl | exact addRequestBody_obliv d anc _ ts _ | split)
+
+theorem addResponse_obliv (d : BDir) (anc) : Obliv (addResponse d anc) := by
+  intro ts c
+  unfold addResponse
+  simp only [fail]
+  ofail
+  refine bind_obliv _ _ _ (fun nt => ?_)
+  generalize (d.kind == Kind.Body && _) = clash
+  ofail
+  split
+  · refine bind_obliv _ _ _ (fun i => ?_)
+    simp only [pure_bind]
+    repeat' (first | rfl | exact obliv_upd (addResponseBody_obliv d anc _) ts c i _ | split)
+  · simp only [pure_bind]
+    repeat' (first | rfl | exact addResponseBody_obliv d anc _ ts _ | split)
+
+theorem addBody_obliv (d : BDir) (anc) : Obliv (addBody d anc) := by
+  intro ts c
+  unfold addBody
+  simp only [fail]
+  ofail
+  ofail
+  split; · exact addRequest_obliv d _ ts c
+  split; · exact addResponse_obliv d _ ts c
+  rfl
 end JSight.C04B
